@@ -649,7 +649,14 @@ pub fn build_fast_check_type_graph<'a>(
       }
     } else {
       // use the items from the cache
-      final_result.extend(package.cache_items);
+      for (specifier, item) in package.cache_items {
+        match item {
+          Ok(module) => final_result.push((specifier, Ok(module))),
+          // same as when not using the cache: every entrypoint gets the
+          // diagnostics instead of only the modules listed in the cache
+          Err(diagnostics) => errors.extend(diagnostics),
+        }
+      }
     }
 
     if !errors.is_empty() {
